@@ -1023,3 +1023,101 @@ func blockReachesWithout(from, to, avoid *ssa.BasicBlock) bool {
 func reachedOnlyFromLoop(fn *ssa.Function, b *ssa.BasicBlock, body map[*ssa.BasicBlock]bool, h *ssa.BasicBlock) bool {
 	return h.Dominates(b)
 }
+
+func init() {
+	register(&Rule{
+		ID: "C06-i", Template: "T1 must-traverse (scratch bytes are filled before they are written)",
+		Doc: "Only bytes that were put there are written out: in pkg/encoding/..., and pkg/objects a slice obtained from (encoding.Bufferer).Buffer(n) — scratch space shared by all fields of an object, holding whatever the previous field left — reaches a Write call (or is returned) only after, on every path, something was stored into it (element stores, copy, binary.PutUint…, a Read into it). Writing it as-is, e.g. as 'sixteen zero bytes' for a zero time, emits the previous field's bytes and the object does not read back.",
+		Min: 5,
+		Run: func(p *Program, r *RuleResult) error {
+			bufm, err := ifaceMethods(p, "pkg/encoding.Bufferer", "Buffer")
+			if err != nil {
+				return err
+			}
+			var fns []*ssa.Function
+			for _, fn := range p.ProdFuncs() {
+				pkg := strings.TrimPrefix(fnPkgPath(fn), modPath+"/")
+				if pkg == "pkg/objects" || pkg == "pkg/encoding" || strings.HasPrefix(pkg, "pkg/encoding/") {
+					fns = append(fns, fn)
+				}
+			}
+			r.Analysed = len(fns)
+			for _, fn := range fns {
+				eachCall(fn, func(c ssa.CallInstruction) {
+					cc := c.Common()
+					isBuf := cc.IsInvoke() && bufm[cc.Method]
+					if !isBuf {
+						if f := calleeFunc(c); f == nil || f.Name() != "Buffer" || f.Type().(*types.Signature).Recv() == nil {
+							return
+						} else if sl, ok := f.Type().(*types.Signature).Results().At(0).Type().Underlying().(*types.Slice); !ok || !isByte(sl.Elem()) {
+							return
+						}
+					}
+					bv, ok := c.(*ssa.Call)
+					if !ok {
+						return
+					}
+					D := forward([]ssa.Value{bv}, fwdOpts{noBinOp: true})
+					// fill events
+					fills := map[ssa.Instruction]bool{}
+					var sinks []ssa.Instruction
+					for _, b := range fn.Blocks {
+						for _, in := range b.Instrs {
+							switch x := in.(type) {
+							case *ssa.Store:
+								if ia, ok := x.Addr.(*ssa.IndexAddr); ok && D[ia.X] {
+									fills[x] = true
+								}
+							case ssa.CallInstruction:
+								if x == c {
+									continue
+								}
+								filled := false
+								for _, ai := range fillerArg(x) {
+									if ai < len(x.Common().Args) && D[x.Common().Args[ai]] {
+										filled = true
+									}
+								}
+								if f := calleeFunc(x); f != nil && f.Pkg() != nil && f.Pkg().Path() == "encoding/binary" && strings.HasPrefix(f.Name(), "Put") {
+									for _, a := range x.Common().Args {
+										if D[a] {
+											filled = true
+										}
+									}
+								}
+								if filled {
+									fills[x] = true
+									continue
+								}
+								// a Write (or any other call) that takes the bytes
+								for _, a := range x.Common().Args {
+									if D[a] {
+										if xc := x.Common(); xc.IsInvoke() && xc.Method.Name() == "Write" || calleeFunc(x) != nil && calleeFunc(x).Name() == "Write" {
+											sinks = append(sinks, x)
+										}
+									}
+								}
+							case *ssa.Return:
+								for _, rv := range x.Results {
+									if D[rv] {
+										sinks = append(sinks, x)
+									}
+								}
+							}
+						}
+					}
+					for i, s := range sinks {
+						key := fmt.Sprintf("%s|scratch→%d", callKey(fn, c), i)
+						what := "scratch bytes are filled before they are written out"
+						if path, reach := reachAfter(fn, c, s, nil, fills); reach {
+							r.bad(key, p.Rel(s.Pos()), what, fmtPath("the bytes from Buffer() are written without anything having been stored into them: they still hold the previous field", path))
+						} else {
+							r.ok(key, p.Rel(s.Pos()), what)
+						}
+					}
+				})
+			}
+			return nil
+		},
+	})
+}
